@@ -3,7 +3,7 @@
    moved onto the import / code entries), 1239-1250 and 1677-1679 (function names are rebuilt from the import
    entries in import-vector order and from the bodies by position in the function vector), 1745-1762 (every
    other map is written back as parsed), 2036 (Module::set_fn_name), module_functions.rs:529-549,
-   module_imports.rs:122-137, function.rs:46-99 (FunctionBuilder name handling).
+   module_imports.rs:122-142, function.rs:46-100 (FunctionBuilder name handling).
    The index spaces and the edit API are the ones of Model/Reindex.v.
    Names are tokens: `n<k>` is k; the import field name `i<fp>` used as a name is [tok_import fp]. *)
 From Coq Require Import List Arith NArith Bool.
@@ -64,11 +64,11 @@ Inductive nop :=
 | NImpSetFn (id : N) (t : N)          (* imports.set_fn_name(name, FunctionID) *)
 | NImpSetName (k : N) (t : N).        (* imports.set_name(name, ImportsID) *)
 
-(* imports.set_fn_name: `(0..).zip(imports)` counts every import entry, so the "function id" is compared with
-   the position in the import vector *)
+(* imports.set_fn_name: the FunctionID is compared with the running count of *function* imports (deleted entries
+   included), as the parser does: the id-th function entry of the import vector *)
 Definition imp_set_fn_name (s : nst) (id t : N) : nst :=
-  match nthN (m_imports (ns_m s)) id with
-  | Some im => if N.eqb (i_sp im) 0 then mkNS (ns_m s) (nset (ns_imp s) id t) (ns_body s) else s
+  match nth_func_import 0 id (m_imports (ns_m s)) with
+  | Some k => mkNS (ns_m s) (nset (ns_imp s) k t) (ns_body s)
   | None => s
   end.
 
@@ -97,27 +97,24 @@ Definition nstep (s : nst) (o : nop) : res (nst * option N) :=
               match nthN (m_imports m) k, nthN (s_items (m_f m)) k with
               | Some im, Some it =>
                   if is_local it then Ok (s', r)                                   (* refused *)
-                  else Ok (mkNS m' (ns_imp s) (nset (ns_body s) k (tok_import (i_fp im))), r)
-                       (* local_func.body.name = Some(imp.name): the import's field name; the builder's name is not used *)
+                  else Ok (mkNS m' (ns_imp s) (nset (ns_body s) k (match bname with Some t => t | None => tok_import (i_fp im) end)), r)
+                       (* local_func.body.name = self.name.or_else(|| Some(imp.name)): the builder's name, else the import's field name *)
               | _, _ => Ok (s', r)
               end
           | _ => Ok (s', r)
           end
       end
   | NSetFn id t =>
-      if id <? s_num (m_f m) then
-        let s1 := imp_set_fn_name s id t in
-        match nthN (s_items (m_f m)) id with
-        | None => Panic 61                                    (* functions[id]: index out of bounds *)
-        | Some it => if is_local it then Panic 62             (* assert!(set_imported_fn_name(..)) *)
-                     else Ok (s1, None)
-        end
-      else
-        match nthN (s_items (m_f m)) id with
-        | None => Panic 61
-        | Some it => if is_import it then Panic 63            (* assert!(set_local_fn_name(..)) *)
-                     else Ok (mkNS m (ns_imp s) (nset (ns_body s) id t), None)
-        end
+      (* the branch is chosen by the kind of the function; the import entry is the function's own import_id *)
+      match nthN (s_items (m_f m)) id with
+      | None => Panic 61                                      (* functions[id]: index out of bounds *)
+      | Some it =>
+          match it_imp it with
+          | Some k => if k <? lenN (m_imports m) then Ok (mkNS m (nset (ns_imp s) k t) (ns_body s), None)
+                      else Panic 64                           (* imports[import_id]: index out of bounds *)
+          | None => Ok (mkNS m (ns_imp s) (nset (ns_body s) id t), None)
+          end
+      end
   | NSetLocalFn id t =>
       match nthN (s_items (m_f m)) id with
       | None => Panic 61
